@@ -1,4 +1,4 @@
-\* generated by hand-written template (see harness/props/c04.notes.md); deviations on = UnevaluatedOperandFolded, NoDivisionGuard
+\* deviations on = UnevaluatedOperandFolded, NoDivisionGuard   (template: harness/props/c04.notes.md)
 SPECIFICATION Spec
 CONSTANTS
   Real = FALSE
@@ -12,5 +12,6 @@ CONSTANTS
   Dev_UnevaluatedOperandFolded = TRUE
   Dev_NoDivisionGuard = TRUE
   Dev_CondSameTypeNoPromotion = FALSE
+  Dev_BareAddressMinusRejected = FALSE
 INVARIANTS Inv_Refines
 CHECK_DEADLOCK FALSE
